@@ -187,7 +187,10 @@ def run(ctx):
       'programs of concurrent registry operations (register / refresh / '
       'unregister / get on one address, 3 initial states), every schedule with '
       f'<= {2 if ctx.quick else 3} preemptions, outcome must be linearizable '
-      'w.r.t. the dict model; (b) stateless DFS (happens-before caching) of '
+      'w.r.t. the dict model; (c) 12 pool-operation configurations '
+      '(as_completed / run / call_and_wait x task ok / raising / unsendable) with '
+      'every placement of <= 1 transport fault or one orchestrator pause: no worker '
+      'stays acquired afterwards; (b) stateless DFS (happens-before caching) of '
       'pool programs: '
       + '; '.join(f'{label} ({len(cfgs)} program tuples)'
                   for label, _, cfgs in groups) + '.')
@@ -204,6 +207,22 @@ def run(ctx):
   for label, bound, cfgs in groups:
     explorer.explore_all(ctx, MODULE, cfgs, pre_bound=bound, split=8,
                          hb_cache=True)
+  # (c) when a pool-level operation returns or raises none of its workers stays
+  # acquired: as_completed / run / call_and_wait x {all tasks fine, a task
+  # raises, a task cannot be submitted} x <= 1 transport fault, plus a slow
+  # orchestrator (one pause at any executed line)
+  menu = ['deadline-before', 'deadline-after', 'kill']
+  pool_ops = []
+  for drv in ('as_completed', 'run', 'call_and_wait'):
+    T = 1 if drv == 'call_and_wait' else 2
+    pool_ops.append(('as_completed', dict(W=2, T=T, driver=drv, menu=menu)))
+    pool_ops.append(('as_completed', dict(W=2, T=T, bad=0, driver=drv, menu=menu)))
+    pool_ops.append(('as_completed', dict(W=2, T=T, bad=0, bad_kind='unpicklable',
+                                          driver=drv, menu=menu)))
+    pool_ops.append(('as_completed', dict(W=2, T=T, bad=T - 1, driver=drv,
+                                          pause=True)))
+  explorer.explore_all(ctx, MODULE, pool_ops, pre_bound=-1, dev_bound=1, split=8)
+  ctx.notes['pool_operation_configurations'] = len(pool_ops)
   races, races3 = race_configs(ctx.tier)
   explorer.explore_all(ctx, MODULE, races, pre_bound=2 if ctx.quick else 3,
                        hb_cache=True)
